@@ -125,6 +125,9 @@ pub enum GenCase {
     Ccsds { rate: String, k: usize },
     CcsdsInvalid { rate: String, k: String },
     CcsdsGirth,
+    /// `--girth` for any code: the printed value must be the girth of the matrix the library builds
+    /// (own layered search); `k` = 0 stands for a DVB-S2 code (`short` applies), otherwise CCSDS
+    AnyGirth { rate: String, short: bool, k: usize },
     CcsdsC2,
     BerHelpNames,
     NoSubcommand,
@@ -158,6 +161,17 @@ fn gen_cases(t: Tier) -> Vec<GenCase> {
         v.push(GenCase::CcsdsInvalid { rate: r.into(), k: k.into() });
     }
     v.push(GenCase::CcsdsGirth);
+    for r in NORMAL_RATES {
+        v.push(GenCase::AnyGirth { rate: r.into(), short: false, k: 0 });
+    }
+    for r in SHORT_RATES {
+        v.push(GenCase::AnyGirth { rate: r.into(), short: true, k: 0 });
+    }
+    for k in [1024usize, 4096, 16384] {
+        for r in ["1/2", "2/3", "4/5"] {
+            v.push(GenCase::AnyGirth { rate: r.into(), short: false, k });
+        }
+    }
     v.push(GenCase::CcsdsC2);
     v.push(GenCase::BerHelpNames);
     v.push(GenCase::NoSubcommand);
@@ -226,6 +240,39 @@ fn check_gen(c: &GenCase, p: &mut Probe) -> Check {
             expect_success(&r, "ccsds --girth")?;
             ensure!(r.stdout.trim() == "Code girth = 6", "girth-output", "ccsds --rate 1/2 --block-size 1024 --girth printed {:?}, documented girth is 6", r.stdout);
         }
+        GenCase::AnyGirth { rate, short, k } => {
+            let (args, h) = if *k == 0 {
+                let code = dvbs2_code(rate, *short).ok_or_else(|| Fail::new("missing-code", format!("no library code for rate {rate} short={short}")))?;
+                let mut a = sv(&["dvbs2", "--rate", rate, "--girth"]);
+                if *short {
+                    a.push("--short".into());
+                }
+                (a, code.h())
+            } else {
+                let rt = match rate.as_str() {
+                    "1/2" => AR4JARate::R1_2,
+                    "2/3" => AR4JARate::R2_3,
+                    _ => AR4JARate::R4_5,
+                };
+                let ks = match k {
+                    1024 => AR4JAInfoSize::K1024,
+                    4096 => AR4JAInfoSize::K4096,
+                    _ => AR4JAInfoSize::K16384,
+                };
+                (sv(&["ccsds", "--rate", rate, "--block-size", &k.to_string(), "--girth"]), AR4JACode::new(rt, ks).h())
+            };
+            // own girth of the matrix the library builds: layered search, smallest bound first
+            let adj = adjacency(&h);
+            let own = [4usize, 6, 8, 10, 12, 14].iter().find_map(|&b| bounded_girth(&adj, b));
+            let r = run_cli(&args, long)?;
+            expect_success(&r, &format!("{args:?}"))?;
+            let want = match own {
+                Some(g) => format!("Code girth = {g}"),
+                None => return Err(Fail::new(INCONCLUSIVE, format!("{args:?}: own search found no cycle up to length 14"))),
+            };
+            ensure!(r.stdout.trim() == want, "girth-output", "{args:?} printed {:?}, the matrix the library builds has girth {own:?}", r.stdout.trim());
+            p.inner += h.num_cols() as u64;
+        }
         GenCase::CcsdsC2 => {
             let r = run_cli(&sv(&["ccsds-c2"]), long)?;
             expect_success(&r, "ccsds-c2")?;
@@ -257,10 +304,12 @@ pub enum ConCase {
 
 fn con_strategy(_t: Tier) -> BoxedStrategy<ConCase> {
     prop_oneof![
-        2 => (1usize..=8, 1usize..=14, 1usize..=4, any::<u64>(), any::<bool>()).prop_map(|(rows, cols, wc, seed, girth)| ConCase::Peg { rows, cols, wc, seed, girth }),
-        5 => ((2usize..=10, 2usize..=20, 1usize..=3, 0usize..=2, any::<bool>()), (prop_oneof![3 => Just(None), 1 => Just(Some(4usize)), 3 => Just(Some(6usize)), 1 => Just(Some(8usize))], 0usize..=10, 0usize..=2, 0usize..=3), (prop_oneof![any::<u64>().prop_map(|x| x.min(u64::MAX - 100)), 0u64..1000], proptest::option::weighted(0.5, 1u64..=40)))
+        2 => (1usize..=8, 1usize..=14, 1usize..=4, prop_oneof![6 => any::<u64>(), 1 => Just(u64::MAX), 1 => Just(u64::MAX - 1), 1 => Just(0u64)], any::<bool>()).prop_map(|(rows, cols, wc, seed, girth)| ConCase::Peg { rows, cols, wc, seed, girth }),
+        5 => ((2usize..=10, 2usize..=20, 1usize..=3, 0usize..=2, any::<bool>()), (prop_oneof![3 => Just(None), 1 => Just(Some(4usize)), 3 => Just(Some(6usize)), 1 => Just(Some(8usize))], 0usize..=10, 0usize..=2, 0usize..=3), (prop_oneof![5 => any::<u64>(), 2 => 0u64..1000, 1 => Just(u64::MAX), 1 => Just(u64::MAX - 1)], proptest::option::weighted(0.5, 1u64..=40)))
             .prop_map(|((rows, cols, wc, slack, uniform), (min_girth, girth_trials, backtrack_cols, backtrack_trials), (seed, search))| {
                 let wc = wc.min(rows);
+                // a seed search over start..start+trials must not run past 2^64 (documented assumption of C16)
+                let seed = if search.is_some() { seed.min(u64::MAX - 100) } else { seed };
                 ConCase::Mn { rows, cols, wr: (cols * wc).div_ceil(rows) + slack, wc, seed, backtrack_cols, backtrack_trials, min_girth, girth_trials, uniform, search }
             }),
     ]
@@ -716,13 +765,77 @@ fn check_ber(c: &BerCase, p: &mut Probe) -> Check {
     Ok(())
 }
 
+/// a sweep whose points run longer than the tool's progress-report interval (500 ms), so that the
+/// library sends intermediate reports before the final one of each point: the result lines must
+/// still be the final statistics (stop rule: exactly --frame-errors frame errors per line)
+fn ber_long_cases(_t: Tier) -> Vec<u8> {
+    vec![0, 1]
+}
+
+fn check_ber_long(which: &u8, p: &mut Probe) -> Check {
+    let s = Scratch::new();
+    // [H0 | staircase], 4 x 12
+    let mut h = Mat::new(4, 12);
+    for (i, row) in [[0usize, 1, 3, 6], [1, 2, 4, 7], [0, 2, 5, 7], [3, 4, 5, 6]].iter().enumerate() {
+        for &j in row {
+            h.ones.push((i, j));
+        }
+    }
+    h.ones.push((0, 8));
+    for j in 1..4 {
+        h.ones.push((j, 8 + j));
+        h.ones.push((j, 8 + j - 1));
+    }
+    let (fa, fo) = (s.path("h.alist"), s.path("out.txt"));
+    std::fs::write(&fa, own_alist(&h, false)).map_err(|e| Fail::new(INCONCLUSIVE, format!("scratch write: {e}")))?;
+    let k = 8u64;
+    let mut fe: u64 = 4000;
+    for round in 0..8 {
+        let mut args = sv(&["ber", &fa, "--output-file", &fo, "--min-ebn0", "3.0", "--max-ebn0", "3.6", "--step-ebn0", "0.5", "--frame-errors", &fe.to_string(), "--max-iter", "10", "--decoder", if *which == 0 { "Phif64" } else { "HLMinstarapproxi8" }]);
+        if *which == 1 {
+            args.extend(sv(&["--bch-max-errors", "1"]));
+        }
+        let t0 = Instant::now();
+        let run = run_cli(&args, Duration::from_secs(120))?;
+        let wall = t0.elapsed();
+        if run.code.is_none() {
+            return Err(Fail::new(INCONCLUSIVE, format!("{args:?} was killed (watchdog or memory cap); stderr: {}", run.stderr)));
+        }
+        expect_success(&run, &format!("{args:?}"))?;
+        let out = std::fs::read_to_string(&fo).map_err(|e| Fail::new("no-output-file", format!("{args:?}: output file missing: {e}")))?;
+        let lines = parse_result_lines(&out);
+        ensure!(lines.len() == 2, "ber-lines", "{args:?}: {} result lines, 2 Eb/N0 points requested:\n{out}", lines.len());
+        for (i, l) in lines.iter().enumerate() {
+            ensure!(l.len() == 11, "ber-columns", "result line has {} columns: {l:?}", l.len());
+            let u = |j: usize| l[j].parse::<u64>().map_err(|_| Fail::new("ber-parse", format!("cannot parse column {j} of {l:?}")));
+            let f = |j: usize| l[j].parse::<f64>().map_err(|_| Fail::new("ber-parse", format!("cannot parse column {j} of {l:?}")));
+            let (frames, biterr, frerr) = (u(1)?, u(2)?, u(3)?);
+            ensure!(frerr == fe, "ber-stop", "sweep lasting {:.1} s: line {i} reports {frerr} frame errors, --frame-errors {fe} requested (an intermediate report instead of the final statistics?): {l:?}", wall.as_secs_f64());
+            let wb = biterr as f64 / (k as f64 * frames as f64);
+            ensure!((f(5)? - wb).abs() <= 0.006 * wb + 1e-300, "ber-ratio", "line {i}: BER column {} but bit errors / (k * frames) = {wb:e}: {l:?}", l[5]);
+            let wf = frerr as f64 / frames as f64;
+            ensure!((f(6)? - wf).abs() <= 0.006 * wf + 1e-300, "fer-ratio", "line {i}: FER column {} but frame errors / frames = {wf:e}: {l:?}", l[6]);
+        }
+        p.inner += 2;
+        if wall >= Duration::from_millis(1600) {
+            p.class("points-longer-than-the-report-interval");
+            p.nontrivial();
+            return Ok(());
+        }
+        let _ = round;
+        fe *= 4;
+    }
+    p.class("never-slow-enough");
+    Ok(())
+}
+
 pub fn property() -> Property {
     Property {
         id: "C20",
         subs: vec![
             Box::new(EnumSub {
                 name: "code-generation",
-                rule: "exhaustive: dvbs2 for all 21 (rate, short) pairs, ccsds for the 9 (rate, block size) pairs (24576 x 40960 only in thorough), ccsds-c2: stdout equals byte for byte the alist of the matrix the library constructs; invalid rates / block sizes / subcommand: non-zero status, message on stderr, no 'panicked at', nothing on stdout; --girth prints 6 for DVB-S2 1/2 and CCSDS 1/2 k=1024; ber --help offers the 36 decoder names",
+                rule: "exhaustive: dvbs2 for all 21 (rate, short) pairs, ccsds for the 9 (rate, block size) pairs (24576 x 40960 only in thorough), ccsds-c2: stdout equals byte for byte the alist of the matrix the library constructs; invalid rates / block sizes / subcommand: non-zero status, message on stderr, no 'panicked at', nothing on stdout; --girth prints 6 for DVB-S2 1/2 and CCSDS 1/2 k=1024 as documented, and for every one of the 30 codes the girth of the matrix the library builds (own layered cycle search); ber --help offers the 36 decoder names",
                 cases: gen_cases,
                 check: check_gen,
                 exhaustive: true,
@@ -758,6 +871,13 @@ pub fn property() -> Property {
                 strategy: ber_strategy,
                 check: check_ber,
                 health: &[("points>=2", 0.40)],
+            }),
+            Box::new(EnumSub {
+                name: "ber-long-points",
+                rule: "two fixed sweeps (Phif64; HLMinstarapproxi8 with an outer-code threshold) of two Eb/N0 points on a 4 x 12 code, --frame-errors quadrupled from 4000 until the whole sweep takes >= 1.6 s of wall time, i.e. each point outlasts the tool's 500 ms progress interval and intermediate reports precede the final one: still one line per point, frame errors exactly as requested, BER/FER equal to the ratios. Time only decides when to stop escalating, never the verdict",
+                cases: ber_long_cases,
+                check: check_ber_long,
+                exhaustive: false,
             }),
         ],
         assumptions: vec![
